@@ -87,7 +87,7 @@ type c16Topic struct {
 }
 
 func c16Unwrap(r *c16Rnd) AbacoUnwrapOptions {
-	o := AbacoUnwrapOptions{RescaleRaw: r.b(), Bias: r.b(), ResetAfter: r.i(0, 40000), PulseSign: []int{1, -1, 0}[r.u()%3], InvertChan: r.ints(4, 0, 500)}
+	o := AbacoUnwrapOptions{RescaleRaw: r.b(), Bias: r.b(), ResetAfter: []int{0, 0, 1, 20000, r.i(0, 40000)}[r.u()%5], PulseSign: []int{1, -1, 0}[r.u()%3], InvertChan: r.ints(4, 0, 500)}
 	o.Unwrap = o.RescaleRaw && r.b()
 	return o
 }
@@ -561,12 +561,32 @@ func c16Run(c c16Case) (v vVerdict) {
 		// the updater saves 2 s after the last change of a saved topic; wait for the file to appear
 		deadline := time.Now().Add(8 * time.Second)
 		saved := false
-		for time.Now().Before(deadline) {
+		// a running source keeps publishing topics that are never saved (trigger rates every second, heart beats...): in half of
+		// the cases such traffic goes on while the save is awaited - it must not put the save off
+		traffic := c.Seed%2 == 0
+		trafficTopic := -1
+		for k := range c16Topics {
+			if c16Topics[k].tag == "TRIGGERRATE" {
+				trafficTopic = k
+			}
+		}
+		for it := 0; time.Now().Before(deadline); it++ {
 			if b, err := os.ReadFile(cfgFile); err == nil && strings.Contains(string(b), "currenttime") {
 				saved = true
 				break
 			}
+			if traffic && trafficTopic >= 0 && it%5 == 0 {
+				val := c16Value(c.Seed+it, trafficTopic, it)
+				if jb, err := json.Marshal(val); err == nil {
+					clientMessageChan <- ClientUpdate{c16Topics[trafficTopic].tag, val}
+					latest[trafficTopic] = val
+					latestJSON[trafficTopic] = string(jb)
+				}
+			}
 			time.Sleep(50 * time.Millisecond)
+		}
+		if traffic {
+			v.Classes = append(v.Classes, "unsaved-topics-changing-while-the-save-is-due")
 		}
 		if saved {
 			// a save must not disturb what a later SENDALL replays
